@@ -9,6 +9,30 @@ use explorer::Ctx;
 use refmodel::ranges as rg;
 use sqldatetime::{Date, OracleDate, Time, Timestamp};
 
+/// Exact magnitude of an interval text of the limit family: is it inside the documented range?
+fn interval_text_in_range(ty: refmodel::picture::Ty, text: &str) -> bool {
+    let t = text.trim_start_matches(['+', '-']);
+    match ty {
+        refmodel::picture::Ty::IntervalYM => {
+            let (y, m) = t.split_once('-').unwrap();
+            let (y, m): (i128, i128) = (y.parse().unwrap(), m.parse().unwrap());
+            m < 12 && y * 12 + m <= rg::YM_MAX
+        }
+        _ => {
+            let (d, rest) = t.split_once(' ').unwrap();
+            let d: i128 = d.parse().unwrap();
+            let (hms, frac) = match rest.split_once('.') { Some((a, b)) => (a, b), None => (rest, "") };
+            let p: Vec<i128> = hms.split(':').map(|x| x.parse().unwrap()).collect();
+            if p[0] > 23 || p[1] > 59 || p[2] > 59 { return false; }
+            // fraction rounded half-up to microseconds
+            let mut digits = frac.to_string();
+            while digits.len() < 7 { digits.push('0'); }
+            let us: i128 = digits[..6].parse::<i128>().unwrap() + if digits.as_bytes()[6] >= b'5' { 1 } else { 0 };
+            d * rg::US_PER_DAY + p[0] * rg::US_PER_HOUR + p[1] * rg::US_PER_MIN + p[2] * rg::US_PER_SEC + us <= rg::DT_MAX
+        }
+    }
+}
+
 pub fn run(ctx: &mut Ctx) {
     let w = world();
     let cal = &w.cal;
@@ -88,5 +112,49 @@ pub fn run(ctx: &mut Ctx) {
         }
     });
     ctx.require(&r, &["ok_value", "error"]);
-    let _ = json!(0);
+    // texts at and beyond the limits of every type: whatever parse returns must be in range
+    let mut texts: Vec<(refmodel::picture::Ty, &'static str, String)> = Vec::new();
+    use refmodel::picture::Ty;
+    let bigs = ["0", "1", "99999999", "100000000", "100000001", "107374182", "107374183", "177999999", "178000000", "178000001", "179913941", "179913942", "200000000", "214748364", "214748365", "357913941", "357913942", "429496729", "429496730", "715827882", "715827883", "999999999"];
+    let fracs = ["", ".0", ".000001", ".999999", ".9999994", ".9999995", ".999999499", ".999999500", ".999999999"];
+    for b in bigs {
+        for sg in ["+", "-", ""] {
+            for m in ["00", "01", "11", "12"] {
+                texts.push((Ty::IntervalYM, "YYYY-MM", format!("{sg}{b}-{m}")));
+            }
+            for t in ["00:00:00", "00:00:01", "23:59:59", "24:00:00"] {
+                for f in fracs {
+                    texts.push((Ty::IntervalDT, "DD HH24:MI:SS.FF", format!("{sg}{b} {t}{f}")));
+                }
+            }
+        }
+    }
+    for f in fracs {
+        for t in ["00:00:00", "23:59:59", "23:59:60", "24:00:00", "12:59:59"] {
+            texts.push((Ty::Time, "HH24:MI:SS.FF", format!("{t}{f}")));
+            for d in ["0001-01-01", "0000-12-31", "9999-12-31", "10000-01-01", "1969-12-31", "2024-02-29", "2023-02-29"] {
+                texts.push((Ty::Timestamp, "YYYY-MM-DD HH24:MI:SS.FF", format!("{d} {t}{f}")));
+                if f.is_empty() { texts.push((Ty::OracleDate, "YYYY-MM-DD HH24:MI:SS", format!("{d} {t}"))); texts.push((Ty::Date, "YYYY-MM-DD", d.to_string())); }
+            }
+        }
+    }
+    ctx.bound("parse_texts_at_limits", json!(texts.len()));
+    let tx = &texts;
+    let r = ctx.sweep_each("parse_results_in_range", "texts with field values at and far beyond the limits of every type (nine-digit interval fields, fractions that round up, year 0 / 10000, hour 24): every value parse returns is in range", texts.len() as u64, 64, |idx, acc| {
+        let (ty, pic, text) = &tx[idx as usize];
+        acc.states += 1;
+        acc.t(1);
+        acc.traces += 1;
+        let got = guard(|| crate::probe::TV::parse(*ty, text, pic));
+        let ok = |v: i128| match ty { Ty::Date => rg::date_ok(v), Ty::Time => rg::time_ok(v), Ty::Timestamp => rg::ts_ok(v), Ty::IntervalYM => rg::ym_ok(v), Ty::IntervalDT => rg::dt_ok(v), Ty::OracleDate => rg::od_ok(v) };
+        match got {
+            Ok(Ok(v)) if matches!(ty, Ty::IntervalYM | Ty::IntervalDT) && !interval_text_in_range(*ty, text) => {
+                acc.fail(&format!("C02:{ty:?}:parse:returns-value-where-exact-result-out-of-range"), idx, || (format!("{ty:?}::parse({text:?}, {pic:?})"), "Err: the text denotes a value outside the documented range".into(), format!("Ok({v}) (a wrapped or clamped value)"), format!("// {ty:?}::parse({text:?}, {pic:?})")))
+            }
+            Ok(Ok(v)) => { if ok(v as i128) { acc.cls("ok_value") } else { acc.fail(&format!("C02:{ty:?}:parse:returns-out-of-range-value"), idx, || (format!("{ty:?}::parse({text:?}, {pic:?})"), "an in-range value or an error".into(), format!("Ok({v})"), format!("// {ty:?}::parse({text:?}, {pic:?})"))) } }
+            Ok(Err(_)) => { acc.cls("error"); acc.nontrivial += 1; }
+            Err(()) => acc.fail(&format!("C02:{ty:?}:parse:panic"), idx, || (format!("{ty:?}::parse({text:?}, {pic:?})"), "value or error".into(), "panic".into(), String::new())),
+        }
+    });
+    ctx.require(&r, &["ok_value", "error"]);
 }
